@@ -180,6 +180,16 @@ ProlongLv(F, G, T, UF, GU, GUold) ==
     LET tmp == [m \in 1 .. G.M |-> MV(T.Ps, VSub(GU[m], GUold[m]))]
     IN [k \in 1 .. F.M |-> VAdd(UF[k], VSum([m \in 1 .. G.M |-> VSc(T.Pc[k][m], tmp[m])], F.n))]
 
+\* prolong_f (base_transfer_params finter = True): the values are corrected as in prolong; the STORED right-hand sides are
+\* corrected by the interpolated change of the coarse right-hand sides instead of being re-evaluated (implicit and explicit
+\* part separately).  FfI/FfE are the stored fine right-hand sides before the call, GfI/GfE the coarse ones, GfIold/GfEold fold.
+ProlongFLv(F, G, T, UF, GU, GUold) ==
+    LET dI == [m \in 1 .. G.M |-> MV(T.Ps, VSub(FI(G, GU[m]), FI(G, GUold[m])))]
+        dE == [m \in 1 .. G.M |-> MV(T.Ps, VSub(FE(G, GU[m], m), FE(G, GUold[m], m)))]
+    IN [U  |-> ProlongLv(F, G, T, UF, GU, GUold),
+        fI |-> [k \in 1 .. F.M |-> VAdd(FI(F, UF[k]), VSum([m \in 1 .. G.M |-> VSc(T.Pc[k][m], dI[m])], F.n))],
+        fE |-> [k \in 1 .. F.M |-> VAdd(FE(F, UF[k], k), VSum([m \in 1 .. G.M |-> VSc(T.Pc[k][m], dE[m])], F.n))]]
+
 \* ---- C10 ------------------------------------------------------------------------------
 \* hypotheses under which the FAS identities hold (they are what pySDC's own transfer matrices provide)
 RowsSumToOne(Rc, Mc, Mf) == \A k \in 1 .. Mc : Md(SumSeq([m \in 1 .. Mf |-> Rc[k][m]])) = 1
@@ -203,4 +213,12 @@ DownUpPreservesFixedPoint(F, G, T, kindG, u0F, UF, tauF) ==
         LET R == RestrictLv(F, G, T, u0F, UF, tauF)
             GUn == Sweep(G, kindG, R.u0, R.U, R.tau)
         IN ProlongLv(F, G, T, UF, GUn, R.Uold) = UF
+\* ... and with prolong_f neither the values nor the stored right-hand sides change
+DownUpFPreservesFixedPoint(F, G, T, kindG, u0F, UF, tauF) ==
+    ((\A m \in 1 .. F.M : Defect(F, u0F, UF, tauF)[m] = Zero(F.n)) /\ SweepDefined(G, kindG)) =>
+        LET R == RestrictLv(F, G, T, u0F, UF, tauF)
+            GUn == Sweep(G, kindG, R.u0, R.U, R.tau)
+            Pf == ProlongFLv(F, G, T, UF, GUn, R.Uold)
+        IN /\ Pf.U = UF
+           /\ \A k \in 1 .. F.M : Pf.fI[k] = FI(F, UF[k]) /\ Pf.fE[k] = FE(F, UF[k], k)
 =============================================================================
